@@ -105,6 +105,9 @@ def run(repo, rep):
     rep.clause("C18-e", "documented CLI defaults / choices equal the argparse defaults; documented internal-default mapping equals the coded defaults")
     rep.clause("C18-f", "the bundled vela.ini uses only keys the reader asks for, legal values, existing non-cyclic inherit targets")
     rep.undecided("numeric validity of arbitrary .ini values; OS-dependent path handling")
+    from .shared import mirror_families
+
+    mirror_families(repo, rep, "C18-c", {('vela', '', 'args'): 'CLI options handed to the option objects'})
     af = repo.mod("architecture_features")
     vela = repo.mod("vela")
     rule_provenance(repo, rep, vela)
